@@ -11,6 +11,16 @@ CLAIMED = {
    technique="Lean 4 proof over translator-regenerated method table (decide) + reflection differential",
    design="§5 C20"),
 }
+CLAIMED["C07"] = dict(
+   text="Lean 4 theorems over an inductive model of Go error values (WireError, WireErrors, httpError, %w wrappers) with errors.Is/As as pre-order traversals: one server-to-client hop (MarshalError then makeError) is idempotent after the first hop for every error, every message text and arbitrary status/code prefix functions (hence the message is a fixed point and nothing stutters); status = table[code] else the error's own else 500; detail preserved; errors.Is against every standard value except ErrRangeInvalid is invariant for the wrapped-error shapes the property quantifies over; exact characterisation for ErrRangeInvalid (F10) and HEAD carriers (F11) with counterexample theorems. The errorStatuses table is regenerated from error.go on every run and compared with the specification's assignment by `decide`. Correspondence: generated error values sent through a real three-hop client/server chain over every carrier method, diffed with the model, plus direct oracles with an independent status table.",
+   note="Trusted: Lean kernel; translator extraction of errorStatuses/Err*/httpError.Is; http.StatusText, unicode.ToLower and encoding/json (string escaping, compaction assumed idempotent) are parameters of the model; net/http framing. Known findings F10, F11 are reported as KNOWN-FINDING lines.",
+   technique="Lean 4 proof (idempotence of the error hop, Is-invariance) + regenerated status table (decide) + differential over a real 3-hop chain",
+   design="§5 C07")
+CLAIMED["C17"] = dict(
+   text="Lean 4 theorems about hand-written recognisers of the three reference regular expressions, checkTag and go-digest, and about ParseRelative modelled as the deterministic split that leftmost-first matching computes: parse_print (what parses prints back to the input), parse_parts_valid (each part satisfies its predicate and length limit), print_parse (valid parts with a non-empty host parse back to the same parts), with the host-less counterexample proved; predicates are total functions defined on the empty string. Correspondence: grammar-directed and fuzz strings compared on ParseRelative, Parse, String and the four predicates (and the deprecated aliases) between the real ociref package and the model, plus direct oracles.",
+   note="Trusted: Lean kernel; equality of the recognisers with Go's regexp matching is validated by the correspondence, not proved; go-digest's algorithm registry. Agreement with the HTTP router is checked under C06/C03 (same predicates are called there).",
+   technique="Lean 4 proof (parse/print round trips over recognisers) + grammar-directed differential against ociref",
+   design="§5 C17")
 NOT_YET = {}
 
 def main():
